@@ -2439,8 +2439,16 @@ fn apply(c: &Cell, g: &Gen, d: &mut Dice) -> Option<Applied> {
                     v.insert(at, Attr::with(attr, vec![y]));
                     return done(item, "two attributes");
                 }
-                let order = if d.chance(50) { vec![x.clone(), y.clone()] } else { vec![y.clone(), x.clone()] };
+                let mut order = if d.chance(50) { vec![x.clone(), y.clone()] } else { vec![y.clone(), x.clone()] };
                 let has_ignore = order.iter().any(|a| a.is_flag("ignore"));
+                // `ignore` next to a negated parameter and a positive one (three parameters, any order): still a contradiction
+                if has_ignore && c.fam == Fam::Error && d.chance(40) {
+                    let used: Vec<String> = order.iter().filter_map(|a| match a { Arg::Flag(s) if s != "ignore" => Some(s.clone()), _ => None }).collect();
+                    if let Some(other) = ["source", "backtrace"].iter().find(|o| !used.iter().any(|u| u == *o)) {
+                        let at = d.pick(order.len() + 1);
+                        order.insert(at, Arg::call("not", &[other]));
+                    }
+                }
                 let (reduced, model): (Arg, &'static str) = if has_ignore { (Arg::flag("ignore"), "c17-legacy-ignore-with-selector") } else { (order[1].clone(), "c17-legacy-x-and-not-x") };
                 v[i].args = Some(order);
                 let det = if has_ignore { "ignore + selector in one attribute" } else { "X + not(X) in one attribute" };
